@@ -548,8 +548,12 @@ def _address(ctx: Ctx, model, mod, E):
     g_, s_ = ci.methods.get("value"), ci.setters.get("value")
     # setter triples
     st = {}
+    generic = []
     for c in _struct_calls(E, s_, "pack"):
         fam = model.try_fold(c.args[1], mod) if len(c.args) > 1 else None
+        if fam is None and len(c.args) > 2 and isinstance(c.args[1], ast.Name) and isinstance(c.args[2], ast.Name):
+            generic.append(c)      # family given by the caller: (family, text) pairs, see below
+            continue
         fmt = c.args[0]
         fs = model.try_fold(fmt, mod)
         if fs is None and isinstance(fmt, ast.JoinedStr):
@@ -565,6 +569,41 @@ def _address(ctx: Ctx, model, mod, E):
     if norm != want:
         ctx.fail(cons, s_.loc(), f"address families written: {st}; RFC 6733/IANA: 1=IPv4 (4 bytes), "
                  f"2=IPv6 (16 bytes), 8=E.164 (text), 16-bit big-endian family prefix")
+    # the (family, text) form: the inverse of the getter, family by family
+    cons_g = "AvpAddress.value:setter-pairs"
+    ctx.inst(cons_g)
+    avp_new = mod.classes["Avp"].methods.get("new") if "Avp" in mod.classes else None
+    drops = [n for n in ast.walk(avp_new.node) if isinstance(n, ast.Assign)
+             and any(isinstance(t, ast.Attribute) and t.attr == "value" for t in n.targets)
+             and isinstance(n.value, ast.Subscript) and isinstance(n.value.slice, ast.Constant)] if avp_new else []
+    if not generic or drops:
+        ctx.fail(cons_g, (avp_new.loc(drops[0]) if drops else s_.loc()),
+                 "the address family of a (family, text) pair - the form the getter returns - is "
+                 "discarded on encode (Avp.new keeps only the text / the setter guesses the family "
+                 "from the text): a decoded family-6 address is re-encoded as E.164 text, "
+                 "(8, '10.0.0.1') as IPv4, and a typed message holding such an address cannot be "
+                 "encoded or dumped at all")
+    if generic:
+        gs = cfg_of(s_)
+        ats = Atomizer(model, mod, ci)
+        c = generic[0]
+        famv, datav = c.args[1].id, c.args[2].id
+        fmt = c.args[0]
+        fs = "".join(v.value if isinstance(v, ast.Constant) else "{}" for v in fmt.values) \
+            if isinstance(fmt, ast.JoinedStr) else model.try_fold(fmt, mod)
+        got = {}
+        for n in gs.nodes:
+            if n.kind == "stmt" and isinstance(n.ast, ast.Assign) and any(A.dotted(t) == datav for t in n.ast.targets):
+                src = ast.unparse(n.ast.value)
+                kind = "AF_INET6" if "AF_INET6" in src else "AF_INET" if "AF_INET" in src else \
+                    "utf-8" if ".encode(" in src else "hex" if "bytes.fromhex(" in src else src[:30]
+                eq = [f_[2] for f_ in must_facts(gs, ats, n) if f_[0] == famv and f_[1] == "==" and f_[3] is True]
+                got[eq[0] if eq else "other"] = kind
+        if got != {1: "AF_INET", 2: "AF_INET6", 8: "utf-8", "other": "hex"} \
+                or str(fs).replace(">", "!") != "!H{}s":
+            ctx.fail(cons_g, s_.loc(c), f"a (family, text) pair is encoded as {got} with format {fs!r}; the "
+                     f"getter's inverse is 1 -> inet_pton(AF_INET), 2 -> inet_pton(AF_INET6), 8 -> utf-8 "
+                     f"text, any other family -> bytes.fromhex, behind a 16-bit big-endian family")
     # a variable-width `s` field is as wide as the bytes packed into it (struct truncates or
     # zero-pads silently otherwise)
     cons = "AvpAddress.value:setter-width"
